@@ -82,7 +82,8 @@ def run_contexts(report, alpha, contexts, max_holes, path_fn, min_holes=0, sym_c
     for ctx in contexts:
         nmax = max_holes(ctx)
         prev = 0
-        for n in range(min_holes, nmax + 1):
+        is_pat = isinstance(ctx, PatCtx)
+        for n in ([0] if is_pat else range(min_holes, nmax + 1)):
             tpl = ctx.template(alpha, n)
             Lex = toklex.make_lexer_class(tpl, sym_coords=sym_coords, file_tags=file_tags)
 
@@ -95,6 +96,15 @@ def run_contexts(report, alpha, contexts, max_holes, path_fn, min_holes=0, sym_c
                 return path_fn(Lex, tpl)
 
             lvl = split_level(tpl, ctx, n)
+            if is_pat:
+                nh = sum(1 for f in tpl.fixed if not f)
+                first = tpl.fixed.index(False) if nh else 0
+                job = E.Job(ctx.name, make_engine, once, split=("input", first + 2) if nh >= 4 else None, **(job_kw or {}))
+                res = E.run_job(job, workers=None if nh >= 4 else 1)
+                report.add_run(job.name, res, describe=tpl.describe())
+                for v in res.violations:
+                    candidates.setdefault(v["sig"], []).append(v)
+                continue
             job = E.Job(f"{ctx.name}/{n}", make_engine, once, split=("input", lvl) if lvl else None, **(job_kw or {}))
             if census and n == min(2, nmax):
                 report.functions |= sample_census(job)
@@ -172,3 +182,25 @@ def node_ids(node, acc=None):
                 continue
             node_ids(getattr(node, name), acc)
     return acc
+
+
+class PatCtx:
+    """a fixed token pattern in which some positions are holes: the pattern is a string of
+    space-separated symbols; a word starting with '?' names a hole class in `classes`"""
+
+    def __init__(self, name, prefix, pattern, suffix, classes):
+        self.name = name
+        self.prefix = list(prefix)
+        self.suffix = list(suffix)
+        self.pattern = pattern.split()
+        self.classes = classes
+        self.domain = None
+
+    def template(self, alpha, n):
+        pos = []
+        for w in self.pattern:
+            if w.startswith("?") and w in self.classes:
+                pos.append(list(self.classes[w]))
+            else:
+                pos.append(w)
+        return toklex.Template(alpha, self.prefix + pos + self.suffix, name=self.name)
